@@ -59,7 +59,12 @@ def stringify_blank_node(
     if len(predicates) < 1:
         return "[ ]"
     if RDF_first in predicates:
-        return stringify_list(bnode)
+        try:
+            return stringify_list(bnode)
+        except ValueError:
+            # the rdf:rest chain runs in a circle (a data graph may hold such a 'list'):
+            # describe the node like any other blank node instead
+            pass
     p_string_map = {}
     for p in predicates:
         if isinstance(p, (rdflib.Literal, rdflib.BNode, rdflib.URIRef)):
